@@ -31,7 +31,7 @@ def run(ck):
         ck.mc_must_fail("MCPatch", "C13_asfound_%s.cfg" % m, workers=4, timeout=600)
     ck.mc_must_fail("MCPatchAlias", "C13_asfound_share_value.cfg", workers=4, timeout=600)
     exe = vlib.build("san", vlib.harness_sources(), "vh")
-    n = 6000 if thorough else 1500
+    n = 30000 if thorough else 1500
     tp = os.path.join(ck.dir, "v.ndjson")
     deaths = vlib.run_executions(exe, lambda st: ["c13", "drive", st, n], n, tp, timeout=1200)
     vlib.conformance(ck, "V:generated-and-malformed-patches", "TracePatch", "trace.cfg", tp, deaths, diag_of, min_events=n, timeout=1800,
